@@ -66,6 +66,8 @@ def import_data(
                 fac_shape = import_shape(fp)
                 fac = import_array(fp, np.prod(fac_shape))
                 fac = np.reshape(fac, np.array(fac_shape))
+                if fac_shape != (shape[len(factor_matrices)], r):
+                    assert False, "Imported factor matrix does not match the header"
                 factor_matrices.append(fac)
             return ttb.ktensor(factor_matrices, weights, copy=False)
     raise ValueError("Failed to load tensor data")  # pragma: no cover
